@@ -18,6 +18,9 @@ pub mod basic;
 #[path = "../../corpus/optional.rs"]
 pub mod optional;
 
+#[path = "../../corpus/generic.rs"]
+pub mod generic;
+
 #[cfg(kani)]
 #[path = "../../corpus/basic_names_h.rs"]
 pub mod basic_names_h;
@@ -319,4 +322,40 @@ mod h {
     }
 
     // @PLAYBACK h@
+}
+
+#[cfg(kani)]
+mod hg {
+    use crate::basic_names_h::{accepted, any_name, as_str};
+    use crate::generic::gc::sv;
+    use crate::generic::ifg::sv as ifg;
+    use crate::generic::{Digit, N64};
+
+    /// Generic message types carry an internal placeholder variant for their type parameters.  It is
+    /// not a message: each type accepts one name per annotated method of its kind "and no other" --
+    /// neither the placeholder's identifier in any casing nor (symbolic 2-byte names) anything but the
+    /// handlers `ga gb gv gz` / `ig` ...
+    #[kani::proof]
+    #[kani::unwind(11)]
+    fn generic_placeholder_is_no_message() {
+        type Exec = sv::ExecMsg<N64, u32, u8>;
+        type Query = sv::QueryMsg<Digit>;
+        type Sudo = sv::SudoMsg<u64>;
+        type IfgExec = ifg::IfgExecMsg<u32>;
+        type IfgQuery = ifg::IfgQueryMsg<Digit>;
+        assert!(!accepted::<Exec>("__phantom") && !accepted::<Exec>("_phantom") && !accepted::<Exec>("_Phantom"));
+        assert!(!accepted::<Query>("__phantom") && !accepted::<Query>("_phantom"));
+        assert!(!accepted::<Sudo>("__phantom") && !accepted::<Sudo>("_phantom"));
+        assert!(!accepted::<IfgExec>("__phantom") && !accepted::<IfgExec>("_phantom") && !accepted::<IfgExec>("_Phantom"));
+        assert!(!accepted::<IfgQuery>("__phantom") && !accepted::<IfgQuery>("_phantom"));
+        let b = any_name::<2>();
+        let s = as_str(&b);
+        let is = |l: &[&str]| l.iter().any(|n| support::sym::str_eq(n, s));
+        assert!(accepted::<Exec>(s) == is(&["ga", "gb", "gv", "gz"]), "exec names of the generic contract");
+        assert!(accepted::<IfgExec>(s) == is(&["ig"]), "exec names of the generic interface");
+        kani::cover!(accepted::<Exec>(s));
+        kani::cover!(accepted::<IfgExec>(s));
+    }
+
+    // @PLAYBACK hg@
 }
